@@ -199,9 +199,15 @@ func (vc *FnVC) applyContract(con *Contract, desc, wit string, callee *ssa.Funct
 			vc.trustedUsed["assumed-contract:"+con.Key] = true
 		}
 		for i, rq := range con.Requires {
-			t := env.boolExpr(rq.Expr)
+			parts := env.conjuncts(rq.Expr, false)
 			vc.flushSide(env)
-			vc.assert("pre", fmt.Sprintf("%s:%s", desc, clauseName(rq, i)), t)
+			for j, t := range parts {
+				nm := fmt.Sprintf("%s:%s", desc, clauseName(rq, i))
+				if len(parts) > 1 {
+					nm = fmt.Sprintf("%s.%d", nm, j+1)
+				}
+				vc.assert("pre", nm, t)
+			}
 		}
 		// termination of recursion: callee measure decreases
 		if vc.con != nil && vc.con.FnDecr != nil && con.FnDecr != nil && callee != nil && vc.eng.sameSCC(vc.fn, callee) {
@@ -521,7 +527,7 @@ func (vc *FnVC) doBuiltin(x ssa.Value, b *ssa.Builtin, c *ssa.CallCommon) {
 		case *types.Slice:
 			vc.setReg(x, sx("sl.len", a.S))
 		case *types.Basic:
-			vc.setReg(x, sx("str.len", a.S))
+			vc.setReg(x, sx("gs.len", a.S))
 		case *types.Map:
 			_, _, ln, _, _ := vc.mapKeys(t)
 			r := vc.setReg(x, sIte(sEq(a.S, "0"), "0", sSelect(vc.cur(ln), a.S)))
@@ -594,9 +600,9 @@ func (vc *FnVC) doAppend(x ssa.Value, c *ssa.CallCommon) {
 	if isString(c.Args[1].Type()) {
 		// append([]byte, string...)
 		sv := vc.val(c.Args[1])
-		k = sx("str.len", sv.S)
+		k = sx("gs.len", sv.S)
 		srcArr = vc.fresh("strbytes", arrSort)
-		vc.body = append(vc.body, fmt.Sprintf("(assert (forall ((i Int)) (! (= (select %s i) (str.at %s i)) :pattern ((select %s i)))))", srcArr, sv.S, srcArr))
+		vc.body = append(vc.body, fmt.Sprintf("(assert (forall ((i Int)) (! (= (select %s i) (gs.at %s i)) :pattern ((select %s i)))))", srcArr, sv.S, srcArr))
 		srcOff = "0"
 	} else {
 		xs := vc.val(c.Args[1])
@@ -618,7 +624,7 @@ func (vc *FnVC) doAppend(x ssa.Value, c *ssa.CallCommon) {
 	if n >= 0 && n <= 4 {
 		inArr = oldArr
 		for j := int64(0); j < n; j++ {
-			inArr = sStore(inArr, sx("+", off, ln, sInt(j)), sSelect(srcArr, sx("+", srcOff, sInt(j))))
+			inArr = sStore(inArr, sx("sl.ix", off, sx("+", ln, sInt(j))), sSelect(srcArr, sx("sl.ix", srcOff, sInt(j))))
 		}
 		inArr = vc.define("inarr", arrSort, inArr)
 	} else {
@@ -663,9 +669,9 @@ func (vc *FnVC) doCopy(x ssa.Value, c *ssa.CallCommon) {
 	var srcArr, srcOff, sl string
 	if isString(c.Args[1].Type()) {
 		sv := vc.val(c.Args[1])
-		sl = sx("str.len", sv.S)
+		sl = sx("gs.len", sv.S)
 		srcArr = vc.fresh("strbytes", arrSort)
-		vc.body = append(vc.body, fmt.Sprintf("(assert (forall ((i Int)) (! (= (select %s i) (str.at %s i)) :pattern ((select %s i)))))", srcArr, sv.S, srcArr))
+		vc.body = append(vc.body, fmt.Sprintf("(assert (forall ((i Int)) (! (= (select %s i) (gs.at %s i)) :pattern ((select %s i)))))", srcArr, sv.S, srcArr))
 		srcOff = "0"
 	} else {
 		s := vc.val(c.Args[1])
